@@ -5,6 +5,8 @@ import (
 	"go/ast"
 	"go/token"
 	"go/types"
+	"golang.org/x/tools/go/ssa"
+	"sort"
 	"strings"
 
 	"verif/checker/core"
@@ -18,6 +20,7 @@ func checkBaseline3C03(c *core.Ctx) {
 	checkDwarfGuards(c)
 	checkTailCallResultTypes(c)
 	checkNoQuadraticStringBuilding(c)
+	checkScratchFieldsPrivate(c)
 }
 
 // R03.12: instantiation-time loops over the element segments that look up the segment's table (offset / bounds / writes)
@@ -457,4 +460,103 @@ func checkNoQuadraticStringBuilding(c *core.Ctx) {
 	}
 	c.Count("quadratic_string_sites", n)
 	c.Discharge("R03.16", "no string concatenation in loops over input-sized data on the decode path", 0, "internal/wasm and internal/wasm/binary scanned")
+}
+
+// R03.17: a scratch buffer (a slice field which a method of its struct resets to length 0 and refills) belongs to the methods
+// of that struct: anything else that keeps a slice of it is overwritten by the owner's next use.
+func checkScratchFieldsPrivate(c *core.Ctx) {
+	c.SSA()
+	fns := moduleFns(c, "internal/wasm")
+	type key struct {
+		named *types.Named
+		field int
+	}
+	scratch := map[key]bool{}
+	recvOf := func(fn *ssa.Function) *types.Named {
+		top := fn
+		for top.Parent() != nil {
+			top = top.Parent()
+		}
+		if top.Signature.Recv() == nil {
+			return nil
+		}
+		return core.NamedOf(top.Signature.Recv().Type())
+	}
+	for _, fn := range fns {
+		rn := recvOf(fn)
+		if rn == nil {
+			continue
+		}
+		for _, b := range fn.Blocks {
+			for _, in := range b.Instrs {
+				st, ok := in.(*ssa.Store)
+				if !ok {
+					continue
+				}
+				fa, ok := st.Addr.(*ssa.FieldAddr)
+				if !ok || core.NamedOf(fa.X.Type()) != rn {
+					continue
+				}
+				sl, ok := st.Val.(*ssa.Slice)
+				if !ok || sl.High == nil {
+					continue
+				}
+				if k, isK := sl.High.(*ssa.Const); !isK || k.Value == nil || k.Int64() != 0 {
+					continue
+				}
+				if ld, ok := sl.X.(*ssa.UnOp); ok {
+					if fa2, ok := ld.X.(*ssa.FieldAddr); ok && fa2.Field == fa.Field && core.NamedOf(fa2.X.Type()) == rn {
+						// … and the same method refills it (append stored back into the field): reset-and-refill per operation
+						refills := false
+						for _, b2 := range fn.Blocks {
+							for _, in2 := range b2.Instrs {
+								st2, ok := in2.(*ssa.Store)
+								if !ok || st2 == st {
+									continue
+								}
+								fa3, ok := st2.Addr.(*ssa.FieldAddr)
+								if !ok || fa3.Field != fa.Field || core.NamedOf(fa3.X.Type()) != rn {
+									continue
+								}
+								if call, ok := st2.Val.(*ssa.Call); ok {
+									if bi, ok := call.Common().Value.(*ssa.Builtin); ok && bi.Name() == "append" {
+										refills = true
+									}
+								}
+							}
+						}
+						if refills {
+							scratch[key{rn, fa.Field}] = true
+						}
+					}
+				}
+			}
+		}
+	}
+	n := 0
+	for k := range scratch {
+		n++
+		fname := k.named.Obj().Name() + "." + k.named.Underlying().(*types.Struct).Field(k.field).Name()
+		var bad []string
+		for _, fn := range fns {
+			if recvOf(fn) == k.named {
+				continue
+			}
+			for _, b := range fn.Blocks {
+				for _, in := range b.Instrs {
+					if fa, ok := in.(*ssa.FieldAddr); ok && fa.Field == k.field && core.NamedOf(fa.X.Type()) == k.named {
+						bad = append(bad, core.SSAFuncName(fn)+" at "+c.Pos(fa.Pos()))
+					}
+				}
+			}
+		}
+		sort.Strings(bad)
+		c.Check(len(bad) == 0, "R03.17", "scratch buffer "+fname+" is used only by the methods of its struct", k.named.Obj().Pos(),
+			"no access outside the methods of "+k.named.Obj().Name(),
+			"accessed from "+strings.Join(bad, "; ")+": the owner resets and refills this buffer on its next call, so a slice of it kept elsewhere (e.g. the expected label types of br_table) is silently overwritten – the validator then compares popped types with themselves and accepts ill-typed code")
+	}
+	c.Count("scratch_fields", n)
+	if n == 0 {
+		c.Undecided("R03.17", "scratch buffers of the validator", 0, "none found")
+	}
 }
